@@ -3,6 +3,7 @@
 package core
 
 import (
+	_ "embed"
 	"fmt"
 	"go/ast"
 	"go/token"
@@ -31,7 +32,15 @@ type Prog struct {
 	SSAPkgs map[string]*ssa.Package
 	All     bool // loaded with LoadAllSyntax (dependencies have bodies)
 
-	cg *callgraph.Graph
+	// Variant is 0 for the program as written; >0 for a behaviour-equivalent
+	// variant in which helpers were inlined (see Variant). Hidden lists the
+	// helpers that were inlined at every use and are therefore dead in the variant.
+	VariantLevel int
+	Hidden       map[*ssa.Function]bool
+	Inlined      []string
+
+	pkgList []*packages.Package
+	cg      *callgraph.Graph
 }
 
 // MinPackages is the number of main-module packages confirmed on the pinned tree.
@@ -83,7 +92,7 @@ func Load(repo string, all bool) (*Prog, error) {
 	if len(pkgs) < MinPackages {
 		return nil, fmt.Errorf("only %d packages loaded (expected >= %d)", len(pkgs), MinPackages)
 	}
-	p := &Prog{Repo: repo, Pkgs: map[string]*packages.Package{}, SSAPkgs: map[string]*ssa.Package{}, All: all}
+	p := &Prog{Repo: repo, Pkgs: map[string]*packages.Package{}, SSAPkgs: map[string]*ssa.Package{}, All: all, pkgList: pkgs}
 	p.Fset = pkgs[0].Fset
 	var prog *ssa.Program
 	var spkgs []*ssa.Package
@@ -127,7 +136,11 @@ func (p *Prog) Func(rel, recv, name string) *ssa.Function {
 		return nil
 	}
 	if recv == "" {
-		return sp.Func(name)
+		f := sp.Func(name)
+		if f != nil && p.Hidden[f] {
+			return nil
+		}
+		return f
 	}
 	t := sp.Type(recv)
 	if t == nil {
@@ -140,7 +153,11 @@ func (p *Prog) Func(rel, recv, name string) *ssa.Function {
 	for i := 0; i < named.NumMethods(); i++ {
 		m := named.Method(i)
 		if m.Name() == name {
-			return p.SSA.FuncValue(m)
+			f := p.SSA.FuncValue(m)
+			if f != nil && p.Hidden[f] {
+				return nil
+			}
+			return f
 		}
 	}
 	return nil
@@ -162,7 +179,7 @@ func (p *Prog) Methods(rel, recv string) []*ssa.Function {
 	}
 	var out []*ssa.Function
 	for i := 0; i < named.NumMethods(); i++ {
-		if f := p.SSA.FuncValue(named.Method(i)); f != nil && f.Blocks != nil {
+		if f := p.SSA.FuncValue(named.Method(i)); f != nil && f.Blocks != nil && !p.Hidden[f] {
 			out = append(out, f)
 		}
 	}
@@ -177,7 +194,26 @@ func (p *Prog) PkgFuncs(rel string) []*ssa.Function {
 	if sp == nil {
 		return nil
 	}
-	return SSAPkgFuncs(p.SSA, sp)
+	all := SSAPkgFuncs(p.SSA, sp)
+	if len(p.Hidden) == 0 {
+		return all
+	}
+	out := all[:0:0]
+	for _, f := range all {
+		if !p.hidden(f) {
+			out = append(out, f)
+		}
+	}
+	return out
+}
+
+func (p *Prog) hidden(f *ssa.Function) bool {
+	for g := f; g != nil; g = g.Parent() {
+		if p.Hidden[g] {
+			return true
+		}
+	}
+	return false
 }
 
 // SSAPkgFuncs lists the source functions of one SSA package.
@@ -289,4 +325,193 @@ func (p *Prog) FileOf(rel string, pos token.Pos) *ast.File {
 		}
 	}
 	return nil
+}
+
+//go:embed baseline_funcs.txt
+var baselineFuncsTxt string
+
+// IgnoreBaseline makes Variant inline every eligible helper (self-test of the inliner).
+var IgnoreBaseline bool
+
+var baselineFuncs = func() map[string]bool {
+	m := map[string]bool{}
+	for _, l := range strings.Split(baselineFuncsTxt, "\n") {
+		if l = strings.TrimSpace(l); l != "" {
+			m[l] = true
+		}
+	}
+	return m
+}()
+
+// AllFuncNames lists the top-level functions and methods of the main module.
+func (p *Prog) AllFuncNames() []string {
+	var out []string
+	for _, sp := range p.SSAPkgs {
+		for _, f := range SSAPkgFuncs(p.SSA, sp) {
+			if f.Parent() == nil && f.Synthetic == "" {
+				out = append(out, FuncName(f))
+			}
+		}
+	}
+	sort.Strings(out)
+	return out
+}
+
+// Variant builds a behaviour-equivalent variant of the program in which small
+// helpers of the main module are inlined into their callers at SSA level
+// (level 1: unexported functions/methods with exactly one use, a plain static
+// call in the same package; level 2: additionally unexported helpers with at
+// most three plain static call sites and a small body). Helpers inlined at every
+// use are hidden from PkgFuncs/Func/Methods. The rule tables are evaluated on a
+// variant only when they do not hold on the program as written: a check passes
+// when it holds on the program or on one of its variants (inlining preserves
+// behaviour, so a necessary condition that holds on a variant holds).
+func (p *Prog) Variant(level int) *Prog {
+	prog, spkgs := ssautil.Packages(p.pkgList, ssa.InstantiateGenerics)
+	prog.Build()
+	v := &Prog{Repo: p.Repo, Fset: p.Fset, Pkgs: p.Pkgs, SSA: prog, SSAPkgs: map[string]*ssa.Package{}, pkgList: p.pkgList,
+		VariantLevel: level, Hidden: map[*ssa.Function]bool{}}
+	for i, pk := range p.pkgList {
+		v.SSAPkgs[pk.PkgPath] = spkgs[i]
+	}
+	var all []*ssa.Function
+	for _, sp := range spkgs {
+		all = append(all, SSAPkgFuncs(prog, sp)...)
+	}
+	isNewHelper := func(f *ssa.Function) bool {
+		return f != nil && f.Parent() == nil && f.Blocks != nil && f.Object() != nil && !f.Object().Exported() && f.Synthetic == "" &&
+			f.Name() != "init" && f.Name() != "main" && !mayBeInvoked(f) && (IgnoreBaseline || !baselineFuncs[FuncName(f)])
+	}
+	// `defer h(args)` / `go h(args)` of a new helper become deferred / spawned closures with h inlined
+	closureized := map[*ssa.Function]bool{}
+	for _, f := range all {
+		for _, g := range ssa.ClosureizeDeferAndGo(f, func(callee *ssa.Function) bool { return callee.Pkg == f.Pkg && isNewHelper(callee) }) {
+			closureized[g] = true
+		}
+	}
+	if len(closureized) > 0 {
+		all = all[:0]
+		for _, sp := range spkgs {
+			all = append(all, SSAPkgFuncs(prog, sp)...)
+		}
+	}
+	type use struct{ calls, other int }
+	uses := map[*ssa.Function]*use{}
+	get := func(f *ssa.Function) *use {
+		u := uses[f]
+		if u == nil {
+			u = &use{}
+			uses[f] = u
+		}
+		return u
+	}
+	for _, f := range all {
+		for _, b := range f.Blocks {
+			for _, in := range b.Instrs {
+				var callee *ssa.Function
+				if c, ok := in.(ssa.CallInstruction); ok {
+					callee = c.Common().StaticCallee()
+					if callee != nil {
+						if _, plain := in.(*ssa.Call); plain && callee.Pkg == f.Pkg {
+							if _, viaClosure := c.Common().Value.(*ssa.MakeClosure); !viaClosure {
+								get(callee).calls++
+							} else {
+								get(callee).other++
+							}
+						} else {
+							get(callee).other++
+						}
+					}
+				}
+				for _, op := range in.Operands(nil) {
+					if fv, ok := (*op).(*ssa.Function); ok && fv != callee {
+						get(fv).other++
+						if fv.Synthetic != "" && fv.Object() != nil {
+							if tf, ok := fv.Object().(*types.Func); ok {
+								if t := prog.FuncValue(tf); t != nil {
+									get(t).other++
+								}
+							}
+						}
+					}
+					if mc, ok := (*op).(*ssa.MakeClosure); ok {
+						if w, ok := mc.Fn.(*ssa.Function); ok && w.Synthetic != "" && w.Object() != nil {
+							if tf, ok := w.Object().(*types.Func); ok {
+								if t := prog.FuncValue(tf); t != nil {
+									get(t).other++
+								}
+							}
+						}
+					}
+				}
+			}
+		}
+	}
+	size := func(f *ssa.Function) int {
+		n := 0
+		for _, b := range f.Blocks {
+			n += len(b.Instrs)
+		}
+		return n
+	}
+	candidate := func(f *ssa.Function) bool {
+		if f == nil || f.Parent() != nil || f.Blocks == nil || f.Object() == nil || f.Object().Exported() || f.Synthetic != "" {
+			return false
+		}
+		if f.Name() == "init" || f.Name() == "main" || mayBeInvoked(f) {
+			return false
+		}
+		// Only helpers that did not exist on the tree the rule tables were
+		// confirmed on are inlined: the tables anchor on that tree's own helper
+		// structure (by role), so inlining its helpers would remove the anchors,
+		// while a helper extracted since then hides the shape the rules look for.
+		// The list only steers this normalisation; it never decides a verdict.
+		if baselineFuncs[FuncName(f)] && !IgnoreBaseline {
+			return false
+		}
+		u := uses[f]
+		if u == nil || u.other > 0 || u.calls == 0 {
+			return false
+		}
+		switch level {
+		case 1:
+			return u.calls == 1
+		default:
+			return size(f) <= 400
+		}
+	}
+	inlined := map[*ssa.Function]bool{}
+	for _, f := range all {
+		got := ssa.InlineStaticCalls(f, func(site *ssa.Call, callee *ssa.Function) bool {
+			return callee.Pkg == f.Pkg && candidate(callee)
+		}, 4)
+		for _, g := range got {
+			inlined[g] = true
+		}
+	}
+	for g := range closureized {
+		inlined[g] = true
+	}
+	// hide a helper only when no reference to it is left anywhere
+	left := map[*ssa.Function]bool{}
+	for _, f := range all {
+		for _, b := range f.Blocks {
+			for _, in := range b.Instrs {
+				for _, op := range in.Operands(nil) {
+					if fv, ok := (*op).(*ssa.Function); ok && inlined[fv] {
+						left[fv] = true
+					}
+				}
+			}
+		}
+	}
+	for g := range inlined {
+		if left[g] {
+			continue
+		}
+		v.Hidden[g] = true
+		v.Inlined = append(v.Inlined, FuncName(g))
+	}
+	sort.Strings(v.Inlined)
+	return v
 }
